@@ -1,14 +1,14 @@
-\* generation (C22, thorough): every structure with up to 4 nodes / depth 4 over ALL node kinds
-\* (while, else, bare blocks, neutral statements, uses of @shared/@exclusive, continue, 2-d
-\* @shared, @exclusive arrays) with up to TWO decorations, breaking at most one rule group
+\* generation (C22, thorough): declarations and their uses -- every structure with up to 4 nodes /
+\* depth 4 over @outer, @inner, if, else, 1-d and 2-d @shared arrays, @exclusive scalars and
+\* arrays and statements that use them, with up to TWO such leaves, breaking at most one rule group
 SPECIFICATION Spec
 CONSTANTS
   MaxNodes = 4
   MaxDepth = 4
-  Kinds = {"fo","fi","fp","wh","if","el","bl","st","us","br","co","sh","sh2","shs","shn","ex","exa"}
-  GoodH = {"lt","sub"}
-  BadH = {"float"}
-  RetTypes = {"void","float"}
+  Kinds = {"fo","fi","if","el","us","sh","sh2","ex","exa"}
+  GoodH = {"lt"}
+  BadH = {}
+  RetTypes = {"void"}
   MaxDecor = 2
   MaxBroken = 1
   DefaultHdr = "lt"
